@@ -82,6 +82,13 @@ def run(tier, seed):
     H.import_opfython()
     out, items = F.run_items(rep, scenarios(rep, tier, seed), PIDS, "c03")
     rep.cov["predictions_judged"] = sum(len(tr["q"]) for _, tr in items)
+    # a classifier is a classifier however it came about: the one learn() leaves (the best of several fits, restored) predicts by the same
+    # rule - over the samples, costs and labels it holds
+    lt = S.learn_traces(random.Random(seed + 4545), 240 if tier == "thorough" else 50, other_queries=True)
+    if lt:
+        S.judge(rep, lt, "c03learn", PIDS, want_m=False)
+        rep.cov["classifiers_left_by_learn_judged"] = len(lt)
+        rep.cov["predictions_judged"] += sum(len(tr["q"]) for _, tr in lt)
     rep.cov["rule"] = "every query distance vector in 0..QMax on every TLC-enumerated forest (supervised and semi-supervised), plus float queries (copies of training samples, midpoints, far points, training rows themselves)"
     rep.assumptions = ["TLC", "order-embedding of floats is exact", "query distances are computed by the harness with the argument order the property implies (training sample, query)"]
     return rep.finish()
